@@ -388,14 +388,14 @@ class Interp:
         try:
             self.h.elaborate(self._targets(mids, single))
             return {"ok": True}
-        except Exception as e:  # noqa
+        except (Exception, seams.InjectedAbort) as e:  # noqa
             return {"ok": False, "exc": norm_exc(e)}
 
     def op_to_proto(self, mids, single=False, domain=None):
         try:
             pkg = self.h.to_proto(self._targets(mids, single), domain=domain) if domain else self.h.to_proto(self._targets(mids, single))
             return {"ok": True, "pkg": pkg}
-        except Exception as e:  # noqa
+        except (Exception, seams.InjectedAbort) as e:  # noqa
             return {"ok": False, "exc": norm_exc(e)}
 
     def op_netlist(self, mids, fmt, single=False):
@@ -403,13 +403,14 @@ class Interp:
             dest = io.StringIO()
             self.h.netlist(self._targets(mids, single), dest=dest, fmt=fmt)
             return {"ok": True, "text": dest.getvalue()}
-        except Exception as e:  # noqa
+        except (Exception, seams.InjectedAbort) as e:  # noqa
             return {"ok": False, "exc": norm_exc(e)}
 
     def op_fault(self, kind, where, mid, nth, label):
         h = self.h
         if kind == "boundary":
-            cls = seams.make_boundary_fault(h, self.mods[mid].module, label, self.fault_counter, dirty=bool(nth))
+            # nth: bit 0 = the pass rewrites before it fails (dirty), bit 1 = it is interrupted (BaseException)
+            cls = seams.make_boundary_fault(h, self.mods[mid].module, label, self.fault_counter, dirty=bool(nth & 1), abort=bool(nth & 2))
             e = seams.build_faulty_elaborator(h, "boundary", where, cls)
         else:
             cls = seams.make_midpass_fault(h, where, nth, label, self.fault_counter)
